@@ -25,6 +25,15 @@ def table_checks():
     return "\n".join(rows)
 
 
+def table_benign():
+    rows = ["| harmless change | written for | kind | checks run | result |", "|---|---|---|---|---|"]
+    for f in sorted(glob.glob(os.path.join(ROOT, "benign", "*", "meta.json"))):
+        m = json.load(open(f))
+        rows.append("| %s | %s | %s | %s | %s |" % (m["id"], m["written_for_property"], m["kind"].split(" (")[0],
+                                                  ", ".join(m["checks_run"]), m.get("result", "quiet")))
+    return "\n".join(rows) + "\n"
+
+
 def table_seeded():
     rows = ["| seeded change | breaks | needs, to manifest | caught by | note |", "|---|---|---|---|---|"]
     for f in sorted(glob.glob(os.path.join(ROOT, "seeded", "*", "meta.json"))):
@@ -46,7 +55,8 @@ def table_findings():
 def main():
     p = os.path.join(ROOT, "DESIGN.md")
     s = open(p).read()
-    for name, fn in (("checks", table_checks), ("seeded", table_seeded), ("findings", table_findings)):
+    for name, fn in (("checks", table_checks), ("seeded", table_seeded), ("findings", table_findings),
+                     ("benign", table_benign)):
         pat = re.compile(r"(<!-- AUTO:%s:begin -->\n).*?(<!-- AUTO:%s:end -->)" % (name, name), re.S)
         if not pat.search(s):
             raise SystemExit("marker missing: " + name)
